@@ -321,3 +321,63 @@ Proof.
     exfalso. pose proof (sync_completed_stops sp st w st false Ep Hsync). discriminate.
   - destruct (negb (w_exists w)); [discriminate|discriminate].
 Qed.
+
+(* ---------- C07, stronger: a reconcile that will not wake itself leaves a state in which it has nothing to do ----------
+   The BatchRelease controller's watch ignores updates of its own status (unless the object is being deleted), so a
+   status change is no wake-up for it.  A reconcile that returns neither an error nor a requeue therefore must have
+   written the workload (whose event comes back), or leave behind a state of waits_br: Completed, stopped by the sync
+   phase for the workload / the Rollout, or a Ready batch held by batchPartition. *)
+Lemma sync_workload_ext sp s0 s0' w : bs_obs_replicas s0 = bs_obs_replicas s0' -> bs_update s0 = bs_update s0' -> bs_stable s0 = bs_stable s0' ->
+     sync_workload sp s0 w = sync_workload sp s0' w.
+Proof. intros H1 H2 H3. unfold sync_workload. rewrite H1, H2, H3. reflexivity. Qed.
+Lemma sync_stop_ignores_gen_cond sp st w g c : snd (sync_status sp (set_gen_cond st g c) w) = snd (sync_status sp st w).
+Proof.
+  unfold sync_status. cbv zeta.
+  rewrite (sync_workload_ext sp (match bs_phase (set_gen_cond st g c) with PhInitial => reset_status (set_gen_cond st g c) | _ => set_gen_cond st g c end)
+             (match bs_phase st with PhInitial => reset_status st | _ => st end) w) by (destruct st as [ph ? ? ? ? ? ? ? ? ? ? ?]; destruct ph; reflexivity).
+  destruct (sync_workload sp _ w) as [ev hi].
+  unfold is_progressing. cbn [bs_phase bs_hash bs_batch set_gen_cond].
+  repeat match goal with |- context [if ?x then _ else _] => destruct x; cbn [snd] end; try reflexivity.
+  all: destruct ev; cbn [snd]; try reflexivity.
+  all: repeat match goal with |- context [if ?x then _ else _] => destruct x; cbn [snd] end; try reflexivity.
+Qed.
+
+Theorem br_no_self_wake_means_settled sp st w r :
+  reconcile sp st w = Some r -> r_finalizer r = true -> r_requeue r = RqNone -> r_err r = false ->
+  wl_eqb w (r_workload r) = false \/ waits_br sp (r_status r) (r_workload r) = true.
+Proof.
+  intros H Hf Hrq He. unfold reconcile in H.
+  destruct (sp_deleting sp && brphase_eqb (bs_phase st) PhCompleted && sp_finalizer sp).
+  { injection H as <-. cbn in Hf. discriminate. }
+  destruct (sync_status sp st w) as [s2 stop] eqn:Hsync.
+  destruct (negb (status_eqb st s2)) eqn:En.
+  { injection H as <-. cbn in Hrq. discriminate. }
+  apply negb_false_iff in En. apply status_eqb_eq in En. subst s2.
+  destruct stop.
+  { injection H as <-. right. cbn [r_status r_workload]. unfold waits_br.
+    rewrite sync_stop_ignores_gen_cond, Hsync. reflexivity. }
+  destruct (execute sp st st w) as [|s w' rq err up] eqn:Hx; [discriminate|].
+  injection H as <-. cbn in Hrq, He. subst rq err. cbn [r_status r_workload].
+  unfold execute in Hx. destruct (bs_phase st) eqn:Ep.
+  - destruct (negb (w_exists w)); discriminate.
+  - destruct (negb (w_exists w)); discriminate.
+  - destruct (negb (w_exists w)); [discriminate|].
+    destruct (bs_state st) eqn:Es.
+    + destruct (w_replicas w =? 0); [discriminate|]. destruct (calc_ctx _); discriminate.
+    + destruct (if w_replicas w =? 0 then Some true else _) as [[|]|]; discriminate.
+    + destruct (if w_replicas w =? 0 then Some true else _) as [[|]|]; try discriminate.
+      destruct (is_partitioned sp st) eqn:Hpart; [|discriminate]. injection Hx as <- <- _.
+      right. unfold waits_br. apply orb_true_iff. right.
+      cbn [bs_phase bs_state set_gen_cond]. rewrite Ep, Es. cbn [brphase_eqb bstate_eqb andb].
+      unfold is_partitioned in *. cbn [bs_batch set_gen_cond]. exact Hpart.
+    + destruct (w_replicas w =? 0); [discriminate|]. destruct (calc_ctx _); discriminate.
+    + destruct (w_replicas w =? 0); [discriminate|]. destruct (calc_ctx _); discriminate.
+  - (* Finalizing -> Completed: nothing left to do *)
+    right. unfold waits_br. apply orb_true_iff. left.
+    assert (Hc : bs_phase (set_gen_cond s (sp_generation sp) (bs_cond s)) = PhCompleted).
+    { destruct (negb (w_exists w)); injection Hx; intros; subst s; reflexivity. }
+    destruct (sync_status sp (set_gen_cond s (sp_generation sp) (bs_cond s)) w') as [s3 stop3] eqn:H3.
+    cbn [snd]. exact (sync_completed_stops _ _ _ _ _ Hc H3).
+  - exfalso. pose proof (sync_completed_stops sp st w st false Ep Hsync). discriminate.
+  - destruct (negb (w_exists w)); discriminate.
+Qed.
